@@ -1,14 +1,19 @@
 #!/bin/bash
 # Re-runs every seeded change under /verif/seeded and every behaviour-preserving patch under
 # /verif/selftest/equivalent against the current checks; prints a detection table.
+# A seeded change counts as caught only when the check of the property it breaks alarms.
 cd /verif
+fail=0
 for d in seeded/*/; do
-  n=$(basename $d)
-  exp=alarm; grep -q "NOT CAUGHT" $d/meta.json 2>/dev/null && exp=silent
-  res=$(tools/run_patch_suite.sh /verif/$d/patch.diff $exp 2>&1 | tail -1)
-  echo "$n :: $res"
+  n=$(basename $d); P=${n%%-*}
+  res=$(tools/run_patch_suite.sh /verif/$d/patch.diff alarm 2>&1 | tail -1)
+  own=no; echo "$res" | grep -q "alarms:\[[^]]*$P" && own=yes
+  [ $own = yes ] || fail=1
+  echo "$n :: own-property-check-alarms=$own :: $res"
 done
 for p in selftest/equivalent/*.patch; do
   res=$(tools/run_patch_suite.sh /verif/$p silent 2>&1 | tail -1)
+  echo "$res" | grep -q "alarms:\[\]" || fail=1
   echo "$(basename $p) :: $res"
 done
+exit $fail
